@@ -144,18 +144,17 @@ pub mod std {
                         // a regular panic went through the dispatcher hook first;
                         // anything else is the engine unwinding a suspended task
                         // at the end of the run and must pass through untouched
-                        let regular = rt::try_with(|st| {
-                            if let Some(p) = st.pending_panic.iter().position(|t| *t == me) {
-                                st.pending_panic.swap_remove(p);
-                                true
-                            } else {
-                                false
-                            }
-                        })
-                        .unwrap_or(false);
-                        if !regular {
+                        // the scheduler ending the simulated process unwinds with its own payload and
+                        // must pass through; everything else is a panic of the simulated program
+                        // (possibly re-raised with resume_unwind, which runs no hook)
+                        if payload.is::<crate::sched::StopRun>() {
                             resume_unwind(payload);
                         }
+                        rt::try_with(|st| {
+                            if let Some(p) = st.pending_panic.iter().position(|t| *t == me) {
+                                st.pending_panic.swap_remove(p);
+                            }
+                        });
                         rt::log(Kind::ThreadExit, idx as u64, 1);
                         rt::with(|st| {
                             st.threads[idx].exited = true;
